@@ -411,7 +411,14 @@ def children(case):
 # ------------------------------------------------------------------ program-exit histories
 ROUTES = {'r': 'return from main', 'e': 'exit(0) from a nested call', 'w': 'exit(0) inside a with-block inside a try-block',
           't': 'uncaught throw (Exception_Error exits)', 's': 'exit(3) from a deep call, no other thread',
-          'j': 'exit(0) after a worker Thread has come and gone'}
+          'j': 'exit(0) after a worker Thread has come and gone',
+          'T': 'exception_signals(); raise(SIGTERM) outside any try (uncaught signal exception)',
+          'I': 'exception_signals(); raise(SIGINT) outside any try (uncaught signal exception)',
+          'F': 'exception_signals(); raise(SIGFPE) outside any try (uncaught signal exception)',
+          'a': 'a signal exception (SIGINT) caught in a try-block, then normal return from main',
+          'b': 'a signal exception caught in a try-block, later an ordinary uncaught throw',
+          'c': 'a signal exception caught in a try-block, later exit(0) from a nested call'}
+SIGNAL_ROUTES = 'TIFabc'
 
 
 def gen_exit_objs(rng):
@@ -463,7 +470,12 @@ def check_exit_case(ctx, exe, drv, route, objs):
            'impl': line, 'exit_status': rc}
     f = line.split(';')
     if len(f) != 5:
-        return 'the program printed no ledger at exit (status %s): %r' % (rc, (out + err)[-200:]), rec
+        mc = exit_model_case(route, objs)
+        rec.update(model_case=mc, model=ctx.run_lines(drv, [mc], args=['model'])[1][0].split(' | ')[-1],
+                   spec=ctx.run_lines(drv, [mc], args=['spec'])[1][0].split(' | ')[-1])
+        return ('the teardown did not run: the program ended through "%s" (status %s) without running its exit handlers '
+                '(no ledger was written; _Exit/abort instead of exit?), so none of its managed objects was finalised'
+                % (ROUTES.get(route, route), rc)), rec
     led = {int(a): int(b) for a, b in (x.split(':') for x in f[0].split(',') if x)}
     mc = exit_model_case(route, objs)
     model = ctx.run_lines(drv, [mc], args=['model'])[1][0]
@@ -497,11 +509,14 @@ def check_exit_case(ctx, exe, drv, route, objs):
 
 def run_exit_routes(ctx, drv, volume, only=None):
     exe = ctx.build_harness('lifecycle_exit.c', name='lifecycle_exit', extra=['-Wl,--wrap=fclose'])
-    cases = [(r, 'p1') for r in ROUTES] + [(r, 'p1 o2 c3 c4 r5 f g6 p7') for r in ROUTES]
+    # the routes through Exception_Error after a signal first (they are the ones a changed
+    # Exception_Error / Exception_Signal breaks), then the others
+    order = list(SIGNAL_ROUTES) + [r for r in ROUTES if r not in SIGNAL_ROUTES]
+    cases = [(r, 'p1') for r in order] + [(r, 'p1 o2 c3 c4 r5 f g6 p7') for r in order]
     cases += [(ctx.rng.choice(list(ROUTES)), gen_exit_objs(ctx.rng)) for _ in range(volume)]
     if only:
         cases = [only]
-    nviol, ncorr, hist = 0, 0, {}
+    nviol, first_corr, hist = 0, None, {}
     for route, objs in cases:
         why, rec = check_exit_case(ctx, exe, drv, route, objs)
         ctx.count_case('exit\0' + rec['case'] + rec['impl'], True)
@@ -510,13 +525,14 @@ def run_exit_routes(ctx, drv, volume, only=None):
             ctx.violation('exit_route_%d' % nviol, dict(rec, kind='implementation contradicts the specification (property fails on a concrete input)',
                                                          why=why))
             nviol += 1
-        elif rec.get('correspondence') and not ncorr:
-            ncorr += 1
-            ctx.violation('exit_route_correspondence', dict(rec, kind='correspondence between model and implementation no longer checks',
-                                                             theorem_or_file='correspondence lifecycle_exit (terminate vs the real main wrapper)',
-                                                             why=rec['correspondence']), no_failing_input=True)
+        elif rec.get('correspondence') and first_corr is None:
+            first_corr = rec
         if len(ctx.cov['samples']) < 6 and route in 'et':
             ctx.sample(rec)
+    if first_corr is not None and not nviol:
+        ctx.violation('exit_route_correspondence', dict(first_corr, kind='correspondence between model and implementation no longer checks',
+                                                         theorem_or_file='correspondence lifecycle_exit (terminate vs the real main wrapper)',
+                                                         why=first_corr['correspondence']), no_failing_input=True)
     ctx.cov['exit_routes'] = {'cases': len(cases), 'by_route': hist,
                               'what': 'one process per history, built with the main wrapper macro of the working tree; ledger read at exit'}
 
